@@ -1,51 +1,61 @@
 (** C03 — the dispatch chain radixsort_CE3 -> CE2 -> CI3 -> CI2 -> multikey_quicksort -> insertion_sort:
     whatever the memory limit selects, the selected sorter meets the contract. *)
 From Coq Require Import List Bool Arith NArith Lia Sorting.Sorted Sorting.Permutation.
-From TLXV Require Import gen.Sizes_C03_gen C03.Model C03.Spec C03.SpecProofs C03.Lemmas C03.Sorters C03.LcpInsertion C03.Radix8.
+From TLXV Require Import gen.Sizes_C03_gen C03.Model C03.Spec C03.SpecProofs C03.Lemmas C03.Sorters C03.LcpInsertion C03.Radix8 C03.Mkqs C03.Radix16.
 Import ListNotations.
 
-(** the pieces of the development that are assumed rather than proved (each is a statement about one loop of the
-    model; see the comments in Properties_C03.v) *)
-Definition InsertionOK (wl : bool) : Prop := SorterOK wl (fun d l lcp => Some (insertion wl d l lcp)).
-Definition MkqsOK (sz : sizes) (wl : bool) : Prop := forall fuel mem, SorterOK wl (fun d => mkqs sz wl fuel d mem).
+(** the one piece of the development that is assumed rather than proved: the in-place cycle-leader permutation of
+    RadixStep_CI2 / RadixStep_CI3 groups the array by character (8-bit) resp. by character pair (16-bit) *)
 Definition InPlaceOK : Prop :=
   forall dep l bl, all_nulfree l -> buckets8 true dep l = Some bl -> BucketsOK dep l bl.
-Definition Radix16OK (sz : sizes) (wl : bool) : Prop :=
-  forall fuel ip mem s, SorterOK wl (fun d => r16_step sz wl fuel ip mem s d).
+Definition InPlace16OK : Prop :=
+  forall dep l bll, all_nulfree l -> buckets16 true dep l = Some bll -> Buckets16OK dep l bll.
 
-(** insertion sort without LCP output is proved *)
-Theorem insertion_nolcp_ok : InsertionOK false.
-Proof.
-  intros p l lcp out lcp' HP HN HL H. unfold insertion in H. injection H as <- <-.
-  destruct (insertion_sort_ok p l HP) as [P S]. split; [exact P|split; [exact S|reflexivity]].
-Qed.
+(** out-of-place steps need no assumption at all *)
+Lemma no_ip {T : Prop} : false = true -> T. Proof. discriminate. Qed.
 
-(** ... and so is the LCP variant: both insertion sorts meet the contract at every depth *)
-Theorem insertion_ok wl : InsertionOK wl.
-Proof. destruct wl; [exact lcp_insertion_ok|exact insertion_nolcp_ok]. Qed.
-
-Section Dispatch.
+Section OutOfPlace.
   Variable sz : sizes.
   Variable wl : bool.
-  Let ins_ok := insertion_ok wl.
-  Hypothesis mkqs_ok : MkqsOK sz wl.
-  Hypothesis ip_ok : InPlaceOK.
-  Hypothesis r16_ok : Radix16OK sz wl.
-
-  Let r8_ok := r8_step_ok sz wl ins_ok mkqs_ok ip_ok.
+  Definition r8_ce_ok := r8_step_ok sz wl (insertion_ok wl) (mkqs_ok sz wl) false no_ip.
+  Definition r16_ce_ok := r16_step_ok sz wl (mkqs_ok sz wl) false no_ip no_ip.
 
   Theorem radixsort_CE0_ok fuel mem : SorterOK wl (fun d => radixsort_CE0 sz wl fuel mem d).
   Proof.
     intros p l lcp out lcp' HP HN HL H. unfold radixsort_CE0 in H.
-    destruct (N.ltb (nN l) inssort_threshold); [eapply ins_ok; eauto|].
-    destruct (mem_short mem _); [eapply (mkqs_ok fuel mem); eauto|eapply r8_ok; eauto].
+    destruct (N.ltb (nN l) inssort_threshold); [eapply (insertion_ok wl); eauto|].
+    destruct (mem_short mem _); [eapply (mkqs_ok sz wl fuel mem); eauto|eapply r8_ce_ok; eauto].
   Qed.
+
+  (** memory limit 0 = "no limit" (the default argument): only out-of-place radix steps, multikey quicksort and
+      insertion sort can be reached -- no assumption left *)
+  Theorem radixsort_CE3_unlimited_ok fuel : SorterOK wl (fun d => radixsort_CE3 sz wl fuel 0 d).
+  Proof.
+    intros p l lcp out lcp' HP HN HL H. unfold radixsort_CE3, radixsort_CE2 in H.
+    destruct (N.ltb (nN l) inssort_threshold); [eapply (insertion_ok wl); eauto|].
+    change (mem_short 0 ?x) with false in H. cbv iota in H.
+    destruct (N.ltb (nN l) radix16).
+    - change (mem_short 0 ?x) with false in H. cbv iota in H. eapply r8_ce_ok; eauto.
+    - eapply r16_ce_ok; eauto.
+  Qed.
+End OutOfPlace.
+
+Section Dispatch.
+  Variable sz : sizes.
+  Variable wl : bool.
+  Hypothesis ip_ok : InPlaceOK.
+  Hypothesis ip16_ok : InPlace16OK.
+
+  Let ins_ok := insertion_ok wl.
+  Let mkqs_ok := mkqs_ok sz wl.
+  Let r8_ci_ok := r8_step_ok sz wl ins_ok mkqs_ok true (fun _ => ip_ok).
+  Let r16_ci_ok := r16_step_ok sz wl mkqs_ok true (fun _ => ip_ok) (fun _ => ip16_ok).
 
   Theorem radixsort_CI2_ok fuel mem : SorterOK wl (fun d => radixsort_CI2 sz wl fuel mem d).
   Proof.
     intros p l lcp out lcp' HP HN HL H. unfold radixsort_CI2 in H.
     destruct (N.ltb (nN l) inssort_threshold); [eapply ins_ok; eauto|].
-    destruct (mem_short mem _); [eapply (mkqs_ok fuel mem); eauto|eapply r8_ok; eauto].
+    destruct (mem_short mem _); [eapply (mkqs_ok fuel mem); eauto|eapply r8_ci_ok; eauto].
   Qed.
 
   Theorem radixsort_CI3_ok fuel mem : SorterOK wl (fun d => radixsort_CI3 sz wl fuel mem d).
@@ -53,14 +63,14 @@ Section Dispatch.
     intros p l lcp out lcp' HP HN HL H. unfold radixsort_CI3 in H.
     destruct (N.ltb (nN l) inssort_threshold); [eapply ins_ok; eauto|].
     destruct (N.ltb (nN l) radix16); [eapply radixsort_CI2_ok; eauto|].
-    destruct (mem_short mem _); [eapply radixsort_CI2_ok; eauto|eapply r16_ok; eauto].
+    destruct (mem_short mem _); [eapply radixsort_CI2_ok; eauto|eapply r16_ci_ok; eauto].
   Qed.
 
   Theorem radixsort_CE2_ok fuel mem : SorterOK wl (fun d => radixsort_CE2 sz wl fuel mem d).
   Proof.
     intros p l lcp out lcp' HP HN HL H. unfold radixsort_CE2 in H.
     destruct (N.ltb (nN l) inssort_threshold); [eapply ins_ok; eauto|].
-    destruct (mem_short mem _); [eapply radixsort_CI3_ok; eauto|eapply r8_ok; eauto].
+    destruct (mem_short mem _); [eapply radixsort_CI3_ok; eauto|eapply (r8_ce_ok sz wl); eauto].
   Qed.
 
   Theorem radixsort_CE3_ok fuel mem : SorterOK wl (fun d => radixsort_CE3 sz wl fuel mem d).
@@ -68,7 +78,7 @@ Section Dispatch.
     intros p l lcp out lcp' HP HN HL H. unfold radixsort_CE3 in H.
     destruct (N.ltb (nN l) inssort_threshold); [eapply ins_ok; eauto|].
     destruct (N.ltb (nN l) radix16); [eapply radixsort_CE2_ok; eauto|].
-    destruct (mem_short mem _); [eapply radixsort_CE2_ok; eauto|eapply r16_ok; eauto].
+    destruct (mem_short mem _); [eapply radixsort_CE2_ok; eauto|eapply (r16_ce_ok sz wl); eauto].
   Qed.
 
   (** tlx::sort_strings / sort_strings_lcp, every memory limit *)
@@ -85,6 +95,20 @@ Section Dispatch.
     - intros W. subst wl. destruct HO as (_ & _ & E). exact E.
   Qed.
 End Dispatch.
+
+(** tlx::sort_strings / sort_strings_lcp with the default memory argument: unconditional *)
+Theorem sort_strings_unlimited_ok sz wl fuel l lcp out lcp' :
+  all_nulfree l -> length lcp = length l ->
+  sort_strings sz wl fuel 0 l lcp = Some (out, lcp') ->
+  SortedPerm l out /\ (wl = true -> LcpExact out lcp') /\ (wl = false -> lcp' = lcp).
+Proof.
+  intros HN HL H. unfold sort_strings in H.
+  assert (HP : Pre [] l) by (unfold Pre; rewrite Forall_forall; intros x _; reflexivity).
+  pose proof (radixsort_CE3_unlimited_ok sz wl fuel [] l lcp out lcp' HP HN HL H) as HO.
+  split; [destruct HO as (P & S & _); split; assumption|]. split.
+  - intros W. subst wl. apply (OutOK_SortedPermLcp l lcp out lcp' HL HO).
+  - intros W. subst wl. destruct HO as (_ & _ & E). exact E.
+Qed.
 
 (** * the shipped boundary loop (704fd0b) reads bkt_size[256] *)
 Lemma bnd_loop_shipped_refuted :
@@ -121,3 +145,18 @@ Proof.
     apply Forall_nil.
   - vm_compute. repeat split; reflexivity.
 Qed.
+
+(** the same input through multikey quicksort (34 >= 32 strings: pivot selection, partition, block swaps, three
+    recursive calls, LCP writes) and directly through one out-of-place and one in-place 16-bit step *)
+Example mkqs_and_radix16_example :
+  match lookup_sizes sizes_table 0 true with
+  | Some sz =>
+      match mkqs sz true 60 0 0 example_input (repeat 777 34), r16_step sz true 60 false 0 1 0 example_input (repeat 777 34),
+            r16_step sz true 60 true 0 1 0 example_input (repeat 777 34) with
+      | Some (o1, l1), Some (o2, l2), Some (o3, l3) =>
+          check_spl example_input o1 l1 = true /\ check_spl example_input o2 l2 = true /\ check_spl example_input o3 l3 = true
+      | _, _, _ => False
+      end
+  | None => False
+  end.
+Proof. vm_compute. repeat split; reflexivity. Qed.
